@@ -60,6 +60,8 @@ def run_refA(history, budget=60000):
             elif k == 'register':
                 r.register(st[1], st[2], st[3])
                 obs.append(None)
+            elif k == 'load_bad':
+                obs.append(None)
             elif k == 'assert_fact':
                 r.assert_(st[1], s_outer(), st[2])
                 obs.append(None)
@@ -145,6 +147,8 @@ def run_refB(history, budget=400000):
                 obs.append(None)
             elif k == 'register':
                 db.register(st[1], st[2], st[3])
+                obs.append(None)
+            elif k == 'load_bad':
                 obs.append(None)
             elif k == 'assert_fact':
                 m = init()
@@ -279,7 +283,29 @@ class RealHistory:
                             yield from rec(i + 1)
                     for _ in rec(0):
                         yield False
-            yp.register_function(name, pred, arity=arity)
+            style = st[4] if len(st) > 4 else 'explicit'
+            if style == 'inferred' and arity >= 0:
+                params = ','.join('a%d' % i for i in range(arity))
+                ns = {'pred': pred}
+                exec('def f(%s):\n    return pred(%s)\n' % (params, params), ns)
+                yp.register_function(name, ns['f'])
+            else:
+                yp.register_function(name, pred, arity=arity)
+        elif k == 'load_bad':
+            # a load that raises must leave the engine unchanged
+            src = rprogram(st[1])
+            how = st[3]
+            try:
+                if how == 'python_raises_after_defs':
+                    code = self.real.compile(src) + '\nundefined_name_raises_name_error\n'
+                elif how == 'python_syntax_error':
+                    code = self.real.compile(src) + '\ndef broken(:\n'
+                else:
+                    code = self.real.compile(src + '\nbroken( :- .\n')
+                yp.load_script_from_string(code, SCRIPT_FN, overwrite=st[2])
+                o = ('load_did_not_raise',)
+            except Exception:
+                o = None
         elif k == 'assert_fact':
             t = st[1]
             args = self.terms(t[2] if t[0] == 'c' else ())
